@@ -69,6 +69,11 @@ def relabellings(rnd, lines):
     for shift in (rnd.randint(1, 400), -(min(nums) + rnd.randint(1, 50))):
         if max(nums) + shift < 9999 and min(nums) + shift > -999:
             out.append(("shift%+d" % shift, [pdbgen.setcols(l, 22, 26, "%4d" % (int(l[22:26]) + shift)) if pdbgen.is_atom(l) else l for l in lines]))
+    # a chain without identifier (blank column 22), and every chain named on the command line (the blank one as ' ')
+    blank = {chains[0]: " "}
+    bl = [pdbgen.setcols(l, 21, 22, blank.get(l[21], l[21])) if pdbgen.is_atom(l) else l for l in lines]
+    out.append(("chains-first-blank", bl))
+    out.append(("chains-first-blank+selected", bl, [x for c in [" "] + chains[1:] for x in ("-c", c)]))
     # adjacent chain letters with numbers 1000 apart: keys built arithmetically from chain code and number coincide
     if len(chains) >= 2:
         adj = dict(zip(chains, "KLMNOP"))
@@ -238,8 +243,9 @@ def run(ctx):
         if lists:
             pos = {g: i for i, g in enumerate(lists[0])}
             loops.append((name, len(lists[0]), [(pos[a], pos[b]) for a, b in rec if a in pos and b in pos and (a, b) in set(rec)], text, base))
-        for kind, rl in relabellings(rnd, lines):
-            o = observe.run(pdbgen.text(rl), [], want_text=False)
+        for rel in relabellings(rnd, lines):
+            kind, rl = rel[0], rel[1]
+            o = observe.run(pdbgen.text(rl), rel[2] if len(rel) > 2 else [], want_text=False)
             ctx.case(key=(name, kind, hash(text)), nontrivial=ngroups >= 4)
             ctx.count("relabellings")
             d = ["error %r" % (o.error,)] if o.error else compare(base, o)
